@@ -491,8 +491,8 @@ def unit_reimport(ctx):
         ctx.check(2)
         lat = C.Lattice.of(g.mesh)
         tol = 16 * max(C.ulp(lat.magnitude(a)) for a in range(len(n)))
-        if tuple(int(k) for k in r2.mesh.n) != tuple(n) or np.any(np.abs(np.asarray(r2.mesh.region.pmin, dtype=float) - np.asarray(g.mesh.region.pmin, dtype=float)) > tol) \
-                or np.any(np.abs(np.asarray(r2.mesh.region.pmax, dtype=float) - np.asarray(g.mesh.region.pmax, dtype=float)) > tol):
+        if tuple(int(k) for k in r2.mesh.n) != tuple(n) or C.gt(np.abs(np.asarray(r2.mesh.region.pmin, dtype=float) - np.asarray(g.mesh.region.pmin, dtype=float)), tol) \
+                or C.gt(np.abs(np.asarray(r2.mesh.region.pmax, dtype=float) - np.asarray(g.mesh.region.pmax, dtype=float)), tol):
             ctx.fail("from_xarray/second-import/corners", f"pmin {np.asarray(r2.mesh.region.pmin).tolist()} pmax "
                      f"{np.asarray(r2.mesh.region.pmax).tolist()} n {tuple(r2.mesh.n)}; the exported field has "
                      f"{np.asarray(g.mesh.region.pmin).tolist()} {np.asarray(g.mesh.region.pmax).tolist()} {n}", instance=inst)
